@@ -55,9 +55,18 @@ enum Site {
     FPrintFileAfterPrint,
     FPrintfFileAfterPrintf,
     FPrint0FileAfterQuit,
+    /// the same test sites inside a policy that uses framed output (the other manager)
+    NameFramed,
+    IPathFramed,
+    PoolFramed,
+    XattrMatchValueFramed,
 }
 
-const SITES: [Site; 19] = [
+const SITES: [Site; 23] = [
+    Site::NameFramed,
+    Site::IPathFramed,
+    Site::PoolFramed,
+    Site::XattrMatchValueFramed,
     Site::FPrintFileAfterPrint,
     Site::FPrintfFileAfterPrintf,
     Site::FPrint0FileAfterQuit,
@@ -111,6 +120,10 @@ fn tree(site: Site, s: &str) -> Option<Expr> {
             a(Action::Printf(vec![Fmt::Field(Field::AccessFmt(c)), nl()]))
         }
         Site::Device => t(Test::Name("x".into())),
+        Site::NameFramed => Expr::and(Expr::Test(Test::Name(s.into())), Expr::Action(Action::Print0)),
+        Site::IPathFramed => Expr::and(Expr::Test(Test::IPath(s.into())), Expr::Action(Action::FPrint("f".into()))),
+        Site::PoolFramed => Expr::and(Expr::Test(Test::Pool(s.into())), Expr::Action(Action::Print0)),
+        Site::XattrMatchValueFramed => Expr::and(Expr::Test(Test::XattrMatch("n".into(), s.into())), Expr::Action(Action::Printf(vec![Fmt::Field(Field::Name)]))),
         Site::FPrintFileAfterPrint => Expr::and(Expr::and(Expr::Test(Test::Name("sibling".into())), Expr::Action(Action::Print)), Expr::Action(Action::FPrint(s.into()))),
         Site::FPrintfFileAfterPrintf => Expr::or(
             Expr::and(Expr::Test(Test::Name("sibling".into())), Expr::Action(Action::Printf(vec![Fmt::Field(Field::Name), nl()]))),
@@ -179,8 +192,8 @@ fn baseline_for(site: Site, s: &str) -> String {
     let glob = s.contains(|c| c == '*' || c == '?' || c == '[');
     match site {
         Site::TimeSelector => "Y".into(),
-        Site::XattrMatchName | Site::XattrMatchValue if s.contains('\'') || glob => format!("{MARK}*"),
-        Site::Name | Site::IName | Site::Path | Site::IPath if glob => format!("{MARK}*"),
+        Site::XattrMatchName | Site::XattrMatchValue | Site::XattrMatchValueFramed if s.contains('\'') || glob => format!("{MARK}*"),
+        Site::Name | Site::IName | Site::Path | Site::IPath | Site::NameFramed | Site::IPathFramed if glob => format!("{MARK}*"),
         _ => MARK.into(),
     }
 }
